@@ -63,6 +63,14 @@ pub enum Platform {
 impl Platform {
     #[allow(unreachable_code)]
     pub fn detect() -> Self {
+        #[cfg(all(blake3_team_blake3_verif, feature = "std"))]
+        {
+            crate::verif::yield_point(crate::verif::SITE_DETECT);
+            if let Some(platform) = crate::verif::platform_override() {
+                return platform;
+            }
+        }
+
         #[cfg(miri)]
         {
             return Platform::Portable;
@@ -128,6 +136,8 @@ impl Platform {
         counter: u64,
         flags: u8,
     ) {
+        #[cfg(all(blake3_team_blake3_verif, feature = "std"))]
+        crate::verif::yield_point(crate::verif::SITE_COMPRESS_IN_PLACE);
         match self {
             Platform::Portable => portable::compress_in_place(cv, block, block_len, counter, flags),
             // Safe because detect() checked for platform support.
@@ -164,6 +174,8 @@ impl Platform {
         counter: u64,
         flags: u8,
     ) -> [u8; 64] {
+        #[cfg(all(blake3_team_blake3_verif, feature = "std"))]
+        crate::verif::yield_point(crate::verif::SITE_COMPRESS_XOF);
         match self {
             Platform::Portable => portable::compress_xof(cv, block, block_len, counter, flags),
             // Safe because detect() checked for platform support.
@@ -213,6 +225,8 @@ impl Platform {
         flags_end: u8,
         out: &mut [u8],
     ) {
+        #[cfg(all(blake3_team_blake3_verif, feature = "std"))]
+        crate::verif::yield_point(crate::verif::SITE_HASH_MANY);
         match self {
             Platform::Portable => portable::hash_many(
                 inputs,
@@ -326,6 +340,8 @@ impl Platform {
             // The current assembly implementation always outputs at least 1 block.
             return;
         }
+        #[cfg(all(blake3_team_blake3_verif, feature = "std"))]
+        crate::verif::yield_point(crate::verif::SITE_XOF_MANY);
         match self {
             // Safe because detect() checked for platform support.
             #[cfg(blake3_avx512_ffi)]
